@@ -228,9 +228,18 @@ func init() {
 					lists := circ.Lists(&in.PWI)
 					seen := map[string]int{}
 					r := ctx.Rand("sel/" + name)
+					lastRound := fmt.Sprintf("QueryRoundProofs[%d].", len(in.PWI.Proof.OpeningProof.QueryRoundProofs)-1)
+					seenLast := map[string]int{}
 					for _, l := range lists {
 						seen[l.Kind]++
 						take := seen[l.Kind] == 1 || r.Intn(60) == 0
+						// every kind of list also in the LAST query round (a loop that stops one short)
+						if strings.Contains(l.Path, lastRound) {
+							seenLast[l.Kind]++
+							if seenLast[l.Kind] == 1 {
+								take = true
+							}
+						}
 						if !ctx.Quick {
 							take = seen[l.Kind] <= 3 || r.Intn(12) == 0
 						}
